@@ -289,7 +289,12 @@ class mc_thread {
   native_handle_type native_handle() { return t_.native_handle(); }
   void join() {
     mc_thread_join(id_);
-    t_.join();
+    // a modelled thread that has finished keeps its real thread parked until the end of the execution
+    // (deterministic exit order, see mc_sched.cpp), so there is nothing to wait for here
+    if (id_ >= 0 && mc_on())
+      t_.detach();
+    else
+      t_.join();
   }
   void detach() {
     mc_thread_detach(id_);
